@@ -232,6 +232,90 @@ var Scenarios = []Scenario{
 		readAll(c, l, "client")
 		c.Close()
 	}},
+	{"data-received-before-a-reset-stays-readable", func(e env, l *log) {
+		ln, c, s := pair(e)
+		defer ln.Close()
+		c.Write([]byte("unread by the server"))
+		e.settle()
+		s.Write([]byte("ANSWER"))
+		s.Close() // unread data: RST
+		e.settle()
+		readAll(c, l, "client")
+		c.Close()
+	}},
+	{"unsent-data-is-lost-when-the-sender-resets", func(e env, l *log) {
+		ln, c, s := pair(e)
+		defer ln.Close()
+		type bufs interface {
+			SetReadBuffer(int) error
+			SetWriteBuffer(int) error
+		}
+		c.(bufs).SetReadBuffer(4096)
+		s.(bufs).SetWriteBuffer(1 << 20)
+		big := make([]byte, 256<<10)
+		n, err := s.Write(big) // the client does not read: most of it stays in the server's send queue
+		l.add("server write complete=%v %s", n == len(big), class(err))
+		c.Write([]byte("upload nobody reads"))
+		e.settle()
+		s.Close() // unread data: RST, the unsent part of the answer is gone
+		e.settle()
+		buf := make([]byte, 4096)
+		total := 0
+		for {
+			n, err := c.Read(buf)
+			total += n
+			if err != nil {
+				l.add("client read some=%v all=%v end=%s", total > 0, total == len(big), class(err))
+				break
+			}
+		}
+		c.Close()
+	}},
+	{"unsent-data-is-lost-when-the-closed-sender-gets-more-data", func(e env, l *log) {
+		ln, c, s := pair(e)
+		defer ln.Close()
+		type bufs interface {
+			SetReadBuffer(int) error
+			SetWriteBuffer(int) error
+		}
+		c.(bufs).SetReadBuffer(4096)
+		s.(bufs).SetWriteBuffer(1 << 20)
+		big := make([]byte, 256<<10)
+		n, err := s.Write(big)
+		l.add("server write complete=%v %s", n == len(big), class(err))
+		s.Close() // nothing unread: orderly, the socket lingers with the unsent part of the answer
+		e.settle()
+		c.Write([]byte("more upload, arriving at a closed socket")) // answered with RST
+		e.settle()
+		buf := make([]byte, 4096)
+		total := 0
+		for {
+			n, err := c.Read(buf)
+			total += n
+			if err != nil {
+				l.add("client read some=%v all=%v end=%s", total > 0, total == len(big), class(err))
+				break
+			}
+		}
+		c.Close()
+	}},
+	{"orderly-close-delivers-everything-queued", func(e env, l *log) {
+		ln, c, s := pair(e)
+		defer ln.Close()
+		type bufs interface {
+			SetReadBuffer(int) error
+			SetWriteBuffer(int) error
+		}
+		c.(bufs).SetReadBuffer(4096)
+		s.(bufs).SetWriteBuffer(1 << 20)
+		big := make([]byte, 256<<10)
+		n, err := s.Write(big)
+		l.add("server write complete=%v %s", n == len(big), class(err))
+		s.Close()
+		e.settle()
+		readAll(c, l, "client")
+		c.Close()
+	}},
 	{"close-without-unread-data-is-fin", func(e env, l *log) {
 		ln, c, s := pair(e)
 		defer ln.Close()
